@@ -48,6 +48,12 @@ def find_id3v1(fileobj, v2_version=4, known_frames=None):
 
     data = fileobj.read(128 + extra_read)
     fileobj.seek(old_pos, 0)
+
+    # If the file ends with an APEv2 footer there is no ID3v1 tag behind it,
+    # a "TAG" in front of the footer is part of the APEv2 tag's items.
+    if data[-32:-24] == b"APETAGEX":
+        return (None, 0)
+
     try:
         idx = data.index(b"TAG")
     except ValueError:
